@@ -114,6 +114,7 @@ def cases() -> Any:
         "validate": st.sampled_from([True, True, True, False]),
         "codec": st.sampled_from(["json", "json", "pickle", "jsonfmt"]),
         "is_async": st.booleans(),
+        "wrapped": st.sampled_from([False, False, True]),
         # parameter names p0, p1, ... or names the library itself uses for its own arguments / locals on the way to the call
         "naming": st.sampled_from(["p", "p", "internal"]),
         "late_register": st.sampled_from([False, False, True]),
@@ -225,6 +226,20 @@ def run_case(c: Dict[str, Any]) -> Outcome:
     allnames = [names[id(p)] for p, _ in plist]
     body = "    GOT.update(dict(" + ", ".join(f"{n}={n}" for n in allnames) + "))\n"
     exec(("async def" if c["is_async"] else "def") + f" task({sig}):\n" + body, ns)
+    if c.get("wrapped"):
+        # the task function is registered behind a transparent functools.wraps decorator (tracing, timing): same signature, same hints
+        import functools
+
+        inner = ns["task"]
+        if c["is_async"]:
+            @functools.wraps(inner)
+            async def traced(*a: Any, **k: Any) -> Any:
+                return await inner(*a, **k)
+        else:
+            @functools.wraps(inner)
+            def traced(*a: Any, **k: Any) -> Any:
+                return inner(*a, **k)
+        ns["task"] = traced
     if c.get("shadow"):
         shadow_sig = ", ".join(f"{n}: str = ''" for n in reversed(allnames))
         exec(f"def shadow_task({shadow_sig}):\n    GOT['__shadow_ran__'] = True\n", ns)
